@@ -376,6 +376,24 @@ func runAliasCensus(c *Ctx, r *Rep) {
 			r.ok(label+"|"+f.key, f.pos, "sanctioned: %s", reason)
 			continue
 		}
+		// a reviewed row names the parameter; when that parameter was renamed the row is the one for this function
+		// whose name no parameter carries any more (exactly one such row, and no row under the new name)
+		if !f.store && f.fn != nil {
+			cur := map[string]bool{}
+			for _, p := range f.fn.Params {
+				cur[p.Name()] = true
+			}
+			var stale []string
+			for k := range table {
+				if strings.HasPrefix(k, f.id+"|") && !cur[strings.TrimPrefix(k, f.id+"|")] {
+					stale = append(stale, k)
+				}
+			}
+			if len(stale) == 1 {
+				r.ok(label+"|"+f.key, f.pos, "sanctioned (the row %s, whose parameter was renamed): %s", stale[0], table[stale[0]])
+				continue
+			}
+		}
 		r.bad(label+"|"+f.key, f.pos, "%s; Python defines this operation as producing a new container / the function is not on the reviewed list of operations that return or keep their operand", f.what)
 	}
 	// every other function that could hand out shared storage
